@@ -1215,6 +1215,30 @@ class FuncInfo:
             self._inlined = clone
         return self._inlined
 
+    def normal(self) -> 'FuncInfo':
+        """The same function in the refactoring-equivalence normal form (fv.equiv.normal_form): loops folded into
+        comprehensions, temporaries inlined, guards flattened, locals alpha-renamed. Line numbers are those of the
+        normal form, so report the original node as location."""
+        if not hasattr(self, '_normal'):
+            from . import equiv
+
+            sigs = equiv._ACTIVE_SIGS  # pylint: disable=protected-access
+            if sigs is None:
+                sigs = equiv.SignatureIndex(self.prog.modules.values())
+            clone = FuncInfo.__new__(FuncInfo)
+            clone.__dict__.update(self.__dict__)
+            parts = self.qual.split('.')
+            clone.node = equiv.normal_form(self.node, sigs, parts[-2] if len(parts) > 1 else None)
+            equiv._ACTIVE_SIGS = sigs  # pylint: disable=protected-access
+            ast.fix_missing_locations(clone.node)
+            for n in ast.walk(clone.node):
+                for c in ast.iter_child_nodes(n):
+                    c._parent = n  # pylint: disable=protected-access
+            clone.node._qual = getattr(self.node, '_qual', self.qual)
+            clone.node._module = self.module
+            self._normal = clone
+        return self._normal
+
     def text(self) -> str:
         """Normalised source of the function as written plus the variant with temporaries inlined (for pattern rules)."""
         return src(self.node) + '\n# -- temporaries inlined --\n' + src(self.inlined().node)
